@@ -4,6 +4,8 @@ import (
 	"bytes"
 
 	"github.com/aptpod/iscp-go/internal/vf"
+	"github.com/aptpod/iscp-go/transport"
+	"github.com/aptpod/iscp-go/transport/compress"
 )
 
 type zzRecW struct {
@@ -73,12 +75,19 @@ func zzC13gCompressibleMessages() {
 	v := [...]byte{0, 'a', 0xff}[vf.Choose("value", 3)]
 	level := [...]int{6, 9, 1}[vf.Choose("level", 3)]
 	msg := bytes.Repeat([]byte{v}, n)
-	frame, err := encodeWithCompression(msg, level)
+	// (the step is taken from a transport built by New with compression negotiated, as Write / Read use it)
+	ab := &zzPipe{ch: make(chan []byte, 4)}
+	ba := &zzPipe{ch: make(chan []byte, 4)}
+	np := NegotiationParams{NegotiationParams: transport.NegotiationParams{Compress: compress.TypePerMessage, CompressLevel: &level}}
+	ta, err1 := New(Config{Connection: &zzConn{out: ab, in: ba, dgIn: make(chan []byte, 1)}, NegotiationParams: np})
+	tb, err2 := New(Config{Connection: &zzConn{out: ba, in: ab, dgIn: make(chan []byte, 1)}, NegotiationParams: np})
+	vf.Assume(err1 == nil && err2 == nil)
+	frame, err := ta.encodeFunc(msg, level)
 	vf.Assert("compresses", err == nil)
 	if err != nil {
 		return
 	}
-	back, err := decodeWithCompression(frame)
+	back, err := tb.decodeFunc(frame)
 	vf.Assert("inflates", err == nil)
 	vf.Assert("full-length", len(back) == n)
 	vf.Assert("byte-for-byte", bytes.Equal(back, msg))
